@@ -31,7 +31,7 @@ AW = 2
 # --- program dimension: ordered forests of with/otherwise nodes -----------------------------------
 
 def forests(n):
-    """all ordered forests with exactly n nodes; node = (kind, children) kind in 'w','o'; otherwise never first"""
+    """all ordered forests with exactly n nodes; node = (kind, children) kind in 'w','o'"""
     if n == 0:
         return [()]
     out = []
@@ -50,21 +50,22 @@ def trees(n):
 
 
 def label(forest):
-    """all labelings: every node is 'w' or 'o', with 'o' never first among its siblings"""
-    def lab_forest(f):
+    """all labelings: every node is 'w' or 'o'; at the top level an 'o' is never first (PyRTL refuses that program), inside a
+    branch it may be (a first `with otherwise:` is active whenever its parent is)"""
+    def lab_forest(f, depth):
         if not f:
             return [()]
         res = [()]
         for i, (_, kids) in enumerate(f):
-            kinds = ['w'] if i == 0 else ['w', 'o']
+            kinds = ['w'] if (i == 0 and depth == 0) else ['w', 'o']
             new = []
             for prefix in res:
                 for k in kinds:
-                    for lk in lab_forest(kids):
+                    for lk in lab_forest(kids, depth + 1):
                         new.append(prefix + ((k, lk),))
             res = new
         return res
-    return lab_forest(forest)
+    return lab_forest(forest, 0)
 
 
 def all_shapes(n):
@@ -117,6 +118,8 @@ def rhs_term(case, name, kind, i, t, v, cur):
         return cur
     if how == 'const':
         return z3.BitVecVal(CONST_RHS, DW)
+    if how == 'zero':
+        return z3.BitVecVal(0, DW)
     return v.inp('d_%s_%d' % (name, i), t, DW)
 
 
@@ -165,6 +168,8 @@ def elaborate(case):
                     d = tgt                       # an explicit hold: r.next |= r
                 elif how == 'const':
                     d = CONST_RHS
+                elif how == 'zero':
+                    d = 0                         # the value a wire reads when nothing drives it: still an assignment
                 else:
                     d = pyrtl.Input(DW, 'd_%s_%d' % (tname, ni))
                 if isinstance(tgt, pyrtl.MemBlock):
@@ -291,8 +296,8 @@ def cases(tier, seed):
         kind = rng.choice(['reg', 'reg_d', 'reg_d', 'wire_d', 'mem'])
         mask = rng.randrange(1, 1 << n)
         amap = {str(k): rng.choice(['pre', 'post']) for k in range(n) if mask >> k & 1}
-        rhs = {k: rng.choice(['self', 'const', 'in'] if kind.startswith('reg') else (['enabled', 'enabled', 'const', 'in'] if kind == 'mem'
-                                                                                      else ['const', 'in'])) for k in amap}
+        rhs = {k: rng.choice(['self', 'const', 'zero', 'in'] if kind.startswith('reg') else (['enabled', 'enabled', 'const', 'zero', 'in'] if kind == 'mem'
+                                                                                              else ['const', 'zero', 'zero', 'in'])) for k in amap}
         out.append({'shape': to_json(sh), 'targets': [{'kind': kind, 'name': 't0'}], 'assign': {'t0': amap}, 'K': 2,
                     'rhs': {'t0': rhs}})
     out.append({'k': 'two_blocks', 'same_dict': True})
@@ -541,6 +546,8 @@ def replay(cex):
             return cur
         if how == 'const':
             return CONST_RHS
+        if how == 'zero':
+            return 0
         return val('d_%s_%d' % (name, i), t)
     for t in range(K):
         forest = from_json(case['shape'])
